@@ -56,6 +56,10 @@ def run(ck: Check, prog: Program) -> None:
         hf_ = mprog.func(q_)
         ck.functions.add(hf_.qualname)
         c06._hash_uses(ck, mprog, hf_)
+    # "whose parameters bind causes exactly one execution": binding is Signature.bind over the filtered signature of THIS method —
+    # a signature shared between methods (memo keyed by name) makes a call that binds be refused and run zero times
+    from .c04 import _bind_strict
+    _bind_strict(ck, prog)
     # "the addressed method": the HTTP integrations hand the request to the dispatcher of the endpoint it was sent to
     from .c18 import route_bind
     route_bind(ck, prog)
